@@ -209,8 +209,8 @@ def oracle_api(ctx, n):
 
 def run(ctx):
     TK.stage(ctx, GEN_FILES, THEOREMS)
-    n1 = oracle_pure(ctx, 20000 if ctx.thorough() else 1500)
-    n2 = oracle_api(ctx, 1500 if ctx.thorough() else 150)
+    n1 = oracle_pure(ctx, 100000 if ctx.thorough() else 1500)
+    n2 = oracle_api(ctx, 8000 if ctx.thorough() else 150)
     ctx.cov['evaluations'] = n1 + n2
     ctx.cov['distinct_nontrivial'] = n1 + n2
     ctx.cov['rule'] = ('random point quadruples in a 40 A box bounded away from collinearity (|sin| > 0.05) with random rigid motions and '
